@@ -139,6 +139,7 @@ func main() {
 			a := standardAtoms()
 			g := &Gen{rng: rng, tempo: 0.15 + 0.2*rng.Float64(), txUsed: map[uint64]bool{}, k3: *k3}
 			h.Funding = (&Gen{rng: rng}).funding()
+			g.planParams(hs)
 			r := newRunner(w, a, h, out)
 			r.wantDigest = *mode == "determinism"
 			g.r = r
